@@ -79,6 +79,20 @@ Proof.
   split; [intros; eapply rotation_slots_interested; eassumption | intros; eapply rotation_rate_order; eassumption].
 Qed.
 
+(* the wrapper itself (timeout_change_conn_state = Manager.timer_tick; compared with the code on every tick whose rates
+   have no ties, where the peer map's iteration order cannot matter): while some peer has not reported both rates a tick
+   only advances the round; otherwise it is the rotation on the reported rates in whatever order the map yields, with
+   the optimistic pick used in round 0 only, and the slot bound holds afterwards *)
+Theorem C14_timer_tick_quiet : forall m order pick, timer_rates m = None ->
+  exists m', timer_tick m order pick = Ok (m', None) /\ m_peers m' = m_peers m /\ m_status m' = m_status m /\
+             m_round m' = (m_round m + 1) mod MAX_OPTIMISTIC_ROUNDS.
+Proof. exact timer_tick_quiet. Qed.
+Theorem C14_timer_tick_bound : forall m order pick m' fl,
+  NoDup (map fst (m_peers m)) -> Permutation (map fst order) (map fst (m_peers m)) ->
+  timer_tick m order pick = Ok (m', Some fl) ->
+  U (m_peers m') <= 10 + len pick /\ m_round m' = (m_round m + 1) mod MAX_OPTIMISTIC_ROUNDS /\ m_status m' = m_status m.
+Proof. exact timer_tick_bound. Qed.
+
 Example C14_nonvacuous :
   let p c i := mkpeer None [] None false c i true false None None in
   match change_conn_state (mkmgr [] [(1, p true true); (2, p false false); (3, p true true)] [] 0 false []) [(1, 5); (2, 9); (3, 5)] [] with
@@ -120,6 +134,8 @@ Print Assumptions C14_rate_order.
 Print Assumptions C14_map_exact.
 Print Assumptions C14_messages_follow_map.
 Print Assumptions C14_timer_wrapper.
+Print Assumptions C14_timer_tick_quiet.
+Print Assumptions C14_timer_tick_bound.
 Print Assumptions C14_rate_uploads_counted.
 Print Assumptions C14_rate_block_counted.
 Print Assumptions C14_rate_refused_block.
